@@ -3,6 +3,7 @@
 # Hyphe's creation-rule family (user configuration, not code under test).
 _HOST = rb"(h:[^\|]+\|(h:[^\|]+\|)+|h:(localhost|(\d{1,3}\.){3}\d{1,3}|\[[\da-f]*:[\da-f:]*\])\|)"
 RULES = {
+    "empty": rb"",
     "domain": rb"(s:[a-zA-Z]+\|(t:[0-9]+\|)?(h:[^\|]+\|(h:[^\|]+\|)|h:(localhost|(\d{1,3}\.){3}\d{1,3}|\[[\da-f]*:[\da-f:]*\])\|))",
     "subdomain": rb"(s:[a-zA-Z]+\|(t:[0-9]+\|)?" + _HOST + rb")",
     "path1": rb"(s:[a-zA-Z]+\|(t:[0-9]+\|)?" + _HOST + rb"(p:[^\|]+\|){1})",
@@ -136,6 +137,8 @@ def gen_pool(rng, profile, n):
         if rng.random() < 0.3:
             alpha = list(range(0, 0x7C)) + list(range(0x7D, 0x100))
         stempool = []
+        if rng.random() < 0.35:
+            stempool.append(b"|")  # the empty stem (e.g. a doubled separator): a stem like any other
         for _ in range(rng.randint(3, 9)):
             L = rng.choice([1, 1, 2, 2, 3, 4, 5])
             stempool.append(bytes(rng.choice(alpha) for _ in range(L)) + b"|")
@@ -175,10 +178,10 @@ def mutate(rng, lru):
         body = body[:-1]
     elif c < 0.6:
         body = body + bytes([rng.choice(b"abz\x00\xff{}~")])
-    else:
+    elif body:
         j = rng.randrange(len(body))
         nb = rng.choice(b"abz\x00\xff{}~c")
         body = body[:j] + bytes([nb]) + body[j + 1 :]
-    if not body:
-        body = b"a"
+    else:
+        body = bytes([rng.choice(b"abz\x00\xff{}~c")])  # the stem was the empty stem
     return b"".join(st[:i]) + body + b"|" + b"".join(st[i + 1 :])
